@@ -25,22 +25,22 @@ func init() {
 }
 
 type mapProto struct {
-	c      *Ctx
-	pre    string
-	pkg    string // package path relative to the module ("sync2"; "" for the GOROOT control)
-	pfx    string // name prefix of that package's functions ("sync2"; "sync")
+	c       *Ctx
+	pre     string
+	pkg     string                 // package path relative to the module ("sync2"; "" for the GOROOT control)
+	pfx     string                 // name prefix of that package's functions ("sync2"; "sync")
 	loaders map[*ssa.Function]bool // helpers that return a fresh snapshot of the read map (loadReadOnly)
-	fMu    *types.Var
-	fRead  *types.Var
-	fDirty *types.Var
-	fMiss  *types.Var
-	fP     *types.Var
-	fROm   *types.Var
-	fROam  *types.Var
-	funcs  []*FuncInfo
-	paths  map[*FuncInfo][]*Path
-	needs  map[*FuncInfo]string // why the function must be entered with mu held
-	sites  map[*FuncInfo][]callSite
+	fMu     *types.Var
+	fRead   *types.Var
+	fDirty  *types.Var
+	fMiss   *types.Var
+	fP      *types.Var
+	fROm    *types.Var
+	fROam   *types.Var
+	funcs   []*FuncInfo
+	paths   map[*FuncInfo][]*Path
+	needs   map[*FuncInfo]string // why the function must be entered with mu held
+	sites   map[*FuncInfo][]callSite
 }
 
 type callSite struct {
